@@ -1843,6 +1843,9 @@ def _b_len(I, args, kwargs, node):
     if isinstance(v, (tuple, list, str)):
         return len(v)
     sn = I.sort_of(v)
+    if sn in getattr(U, 'options', {}):
+        v = I.coerce(v, U.options[sn])          # len(None) is a TypeError
+        sn = I.sort_of(v)
     if sn == 'Str':
         return z3.Length(v)
     if sn in U.lists:
